@@ -7,8 +7,6 @@ import (
 	"strconv"
 	"time"
 
-	"github.com/valyala/fastjson/fastfloat"
-
 	. "github.com/cube2222/octosql/execution"
 	"github.com/cube2222/octosql/execution/files"
 	"github.com/cube2222/octosql/octosql"
@@ -64,12 +62,15 @@ func (d *DatasourceExecuting) Run(ctx ExecutionContext, produce ProduceFn, metaS
 		for i, columnIndex := range indicesToRead {
 			str := row[columnIndex]
 			if str == "" {
+				if octosql.Null.Is(d.fields[i].Type) != octosql.TypeRelationIs {
+					return fmt.Errorf("empty value in column '%s' of type %s, which doesn't allow NULL", d.fields[i].Name, d.fields[i].Type)
+				}
 				values[i] = octosql.NewNull()
 				continue
 			}
 
 			if octosql.Int.Is(d.fields[i].Type) == octosql.TypeRelationIs {
-				integer, err := fastfloat.ParseInt64(str)
+				integer, err := strconv.ParseInt(str, 10, 64)
 				if err == nil {
 					values[i] = octosql.NewInt(integer)
 					continue
@@ -77,7 +78,7 @@ func (d *DatasourceExecuting) Run(ctx ExecutionContext, produce ProduceFn, metaS
 			}
 
 			if octosql.Float.Is(d.fields[i].Type) == octosql.TypeRelationIs {
-				float, err := fastfloat.Parse(str)
+				float, err := strconv.ParseFloat(str, 64)
 				if err == nil {
 					values[i] = octosql.NewFloat(float)
 					continue
@@ -100,6 +101,9 @@ func (d *DatasourceExecuting) Run(ctx ExecutionContext, produce ProduceFn, metaS
 				}
 			}
 
+			if octosql.String.Is(d.fields[i].Type) != octosql.TypeRelationIs {
+				return fmt.Errorf("value '%s' in column '%s' doesn't match its inferred type %s", str, d.fields[i].Name, d.fields[i].Type)
+			}
 			values[i] = octosql.NewString(str)
 		}
 
